@@ -5,6 +5,7 @@ import (
 	"errors"
 	"fmt"
 	"math/bits"
+	"time"
 
 	"go.sia.tech/core/blake2b"
 	"go.sia.tech/core/types"
@@ -18,7 +19,8 @@ var ErrCommitmentMismatch = errors.New("commitment hash mismatch")
 func ValidateHeader(s State, bh types.BlockHeader) error {
 	if bh.ParentID != s.Index.ID {
 		return errors.New("wrong parent ID")
-	} else if bh.Timestamp.Before(s.medianTimestamp()) {
+	} else if bh.Timestamp.Truncate(time.Second).Before(s.medianTimestamp()) {
+		// NOTE: the encoding (and the ID) of a header only cover whole seconds
 		return errors.New("timestamp too far in the past")
 	} else if bh.Nonce%s.NonceFactor() != 0 {
 		return errors.New("nonce not divisible by required factor")
